@@ -223,11 +223,42 @@ def cut(x, name):
     return Node('cut', (x,), aux=name, rg=x.rg, cv=x.cv, kind=x.kind)
 
 
+STAGE_ALL_APPS = [False]   # when set, every function application becomes a Lean definition of its own (an atom for `ring`)
+_SKEY = {}
+
+
+def struct_key(n):
+    """structural hash of a node (equal for structurally equal expressions built at different times)"""
+    import hashlib
+    stack = [n]
+    while stack:
+        x = stack[-1]
+        if x.id in _SKEY:
+            stack.pop()
+            continue
+        todo = [c for c in x.args if c.id not in _SKEY]
+        if todo:
+            stack.extend(todo)
+            continue
+        aux = repr(x.aux) if x.op != 'detach' else ''
+        if x.op == 'detach':  # value-transparent
+            _SKEY[x.id] = _SKEY[x.args[0].id]
+        else:
+            h = hashlib.sha1((x.op + '|' + aux + '|' + ','.join(_SKEY[c.id] for c in x.args)).encode()).hexdigest()[:12]
+            _SKEY[x.id] = h
+        stack.pop()
+    return _SKEY[n.id]
+
+
 def app(fname, args, didx=()):
     """Uninterpreted function application; `didx` = tuple of argument positions differentiated so far."""
     args = tuple(Node.const(a) for a in args)
     rg = _grad_on() and any(a.rg for a in args)
-    return Node('app', args, aux=(fname, tuple(sorted(didx))), rg=rg, kind='t')
+    n = Node('app', args, aux=(fname, tuple(sorted(didx))), rg=rg, kind='t')
+    if STAGE_ALL_APPS[0]:
+        d = ''.join(str(k) for k in sorted(didx))
+        return cut(n, f"{fname}{'_d' + d if d else ''}_{struct_key(n)}")
+    return n
 
 
 # --------------------------------------------------------------------------------------------------------------
@@ -820,7 +851,7 @@ def _min_shim(*args, **kw):
     if len(args) == 2 and any(isinstance(a, (ST, Node)) for a in args):
         a, b = args
         if isinstance(a, ST) or isinstance(b, ST):
-            return ST(np.frompyfunc(nmin, 2, 1)(_as_st(a).a, _as_st(b).a))
+            return _mk(np.frompyfunc(nmin, 2, 1)(_as_st(a).a, _as_st(b).a))
         return nmin(a, b)
     return _REAL['min'](*args, **kw)
 
@@ -829,7 +860,7 @@ def _max_shim(*args, **kw):
     if len(args) == 2 and any(isinstance(a, (ST, Node)) for a in args):
         a, b = args
         if isinstance(a, ST) or isinstance(b, ST):
-            return ST(np.frompyfunc(nmax, 2, 1)(_as_st(a).a, _as_st(b).a))
+            return _mk(np.frompyfunc(nmax, 2, 1)(_as_st(a).a, _as_st(b).a))
         return nmax(a, b)
     return _REAL['max'](*args, **kw)
 
@@ -901,3 +932,86 @@ def enumerate_paths(fn, max_paths=64):
 
 def float_bits(x):
     return struct.unpack('<Q', struct.pack('<d', float(x)))[0]
+
+
+# --------------------------------------------------------------------------------------------------------------
+# forward-mode derivative of the traced VALUE (mathematical semantics: `detach` is the identity, no requires_grad logic)
+# --------------------------------------------------------------------------------------------------------------
+
+def fwd_tangent(root, seeds):
+    """d root / d(seed direction): `seeds` maps node id -> tangent (Node or number).  Used as the SPEC of "the derivative of the
+    numerical solution": it follows the arithmetic only, so it is blind to detach / create_graph / no_grad decisions — which is
+    exactly what backprop through the library's graph (grad_nodes, torch semantics) is compared against."""
+    memo = {}
+
+    def go(n):
+        if n.id in memo:
+            return memo[n.id]
+        if n.id in seeds:
+            r = seeds[n.id]
+        elif n.op in ('var', 'const', 'cmp', 'sign'):
+            r = 0
+        else:
+            a = n.args
+            op = n.op
+            ta = [go(x) for x in a]
+            if op == 'add':
+                r = _tadd(ta[0], ta[1])
+            elif op == 'sub':
+                r = _tadd(ta[0], _tneg(ta[1]))
+            elif op == 'neg':
+                r = _tneg(ta[0])
+            elif op == 'mul':
+                r = _tadd(_tmul(ta[0], a[1]), _tmul(ta[1], a[0]))
+            elif op == 'div':
+                r = _tadd(_tmul(ta[0], 1 / a[1]), _tneg(_tmul(ta[1], a[0] / (a[1] * a[1]))))
+            elif op == 'powi':
+                e = n.aux
+                r = 0 if e == 0 else _tmul(ta[0], (e * a[0] ** (e - 1)) if e != 1 else 1)
+            elif op == 'sqrt':
+                r = _tmul(ta[0], 1 / (2 * n))
+            elif op == 'abs':
+                r = _tmul(ta[0], a[0].un('sign'))
+            elif op in ('detach', 'cut'):
+                r = ta[0]
+            elif op == 'ite':
+                r = 0 if (_is_zero(ta[1]) and _is_zero(ta[2])) else ite(a[0], ta[1], ta[2])
+            elif op in ('max', 'min'):
+                c = (a[0] >= a[1]) if op == 'max' else (a[0] <= a[1])
+                r = 0 if (_is_zero(ta[0]) and _is_zero(ta[1])) else ite(c, ta[0], ta[1])
+            elif op == 'app':
+                fname, didx = n.aux
+                r = 0
+                for k, t in enumerate(ta):
+                    if not _is_zero(t):
+                        r = _tadd(r, _tmul(t, app(fname, a, didx + (k,))))
+            else:
+                raise Untranslatable(f"fwd_tangent: no rule for {op}")
+        memo[n.id] = r
+        return r
+
+    import sys
+    sys.setrecursionlimit(20000)
+    with torch.no_grad():
+        out = go(root)
+    return Node.const(out) if not isinstance(out, Node) else out
+
+
+def _tadd(a, b):
+    if _is_zero(a):
+        return b
+    if _is_zero(b):
+        return a
+    return a + b
+
+
+def _tneg(a):
+    return 0 if _is_zero(a) else -a
+
+
+def _tmul(t, f):
+    if _is_zero(t):
+        return 0
+    if isinstance(f, (int, float)) and f == 1:
+        return t
+    return t * f
